@@ -3,6 +3,7 @@ package ref
 import (
 	"fmt"
 	"math"
+	"math/big"
 	"strconv"
 	"strings"
 )
@@ -562,20 +563,21 @@ func evalBinary(x *Binary, env *Env) (Value, Status) {
 			return Undef, OOD // ill-typed
 		}
 		if l.K == KInt && r.K == KInt {
-			var f float64
-			var i int64
+			a, b := big.NewInt(l.I), big.NewInt(r.I)
+			res := new(big.Int)
 			switch x.Op {
 			case "+":
-				f, i = float64(l.I)+float64(r.I), l.I+r.I
+				res.Add(a, b)
 			case "-":
-				f, i = float64(l.I)-float64(r.I), l.I-r.I
+				res.Sub(a, b)
 			case "*":
-				f, i = float64(l.I)*float64(r.I), l.I*r.I
+				res.Mul(a, b)
 			}
-			if !safeInt(f) {
+			// exact integers only up to 2^53 - 1 (beyond that the backends disagree)
+			if !res.IsInt64() || res.Int64() >= MaxSafe || res.Int64() <= -MaxSafe || l.I >= MaxSafe || l.I <= -MaxSafe || r.I >= MaxSafe || r.I <= -MaxSafe {
 				return Undef, OOD
 			}
-			return Int(i), OK
+			return Int(res.Int64()), OK
 		}
 		var f float64
 		switch x.Op {
